@@ -1,0 +1,430 @@
+//go:build verif
+
+// Contracts of package redis for the deductive verification in /verif (comment-only; compiled out unless the
+// build tag "verif" is set, and even then it contains no code).
+
+package redis
+
+// ---------------------------------------------------------------- ghost state of the connection being served
+//@ ghost var replies int        // complete reply frames written to the client (calls of Write by responseMessage)
+//@ ghost var requests int       // requests returned by the parser to the connection loop
+//@ ghost var span_depth int     // open child spans on the current tracing context
+//@ ghost var root_open int      // 1 while the current request's root span is started and not finished
+//@ ghost var sock_closed bool   // the client socket has been closed
+//@ ghost var cur_uuid uuid.UUID // the identifier given to the connection object of this unit
+//@ ghost var authed bool        // an AUTH carrying exactly the configured password has succeeded on this connection
+
+//@ spec func srvOK(s ref) bool = s != nil && s.ServerConfig != nil && s.ServerConfig.Config != nil && s.ServerConfig.Config.params != nil && s.AuthManager != nil && s.ConnManager != nil && s.ConnManager.m != nil && s.ConnManager.mutex != nil && s.Tracer != nil && s.commandExecutors != nil && s.systemCommandHandler != nil
+//@ spec func isAuthCmd(cmd string) bool = toUpper(cmd) == "AUTH"
+
+// ---------------------------------------------------------------- conn.go
+
+//@ func newConnWith
+//@ assigns cur_uuid, alloc
+//@ ensures {C13,C08} result != nil && fresh(result) && result.id == 0 && !result.authrized && result.username == "" && result.password == ""
+//@ ensures {C19} !result.isClosed && result.Conn == conn && result.tlsState == tlsState && result.Context == nil && result.uuid == cur_uuid
+
+//@ func (*Conn).Close
+//@ requires conn.Conn != nil
+//@ assigns conn.isClosed, sock_closed
+//@ ensures {C19} old(conn.isClosed) ==> sock_closed == old(sock_closed) && result == nil
+//@ ensures {C19} !old(conn.isClosed) ==> sock_closed
+//@ ensures {C19} conn.isClosed ==> old(conn.isClosed) || sock_closed
+//@ ensures {C19} old(conn.isClosed) ==> conn.isClosed
+
+//@ func (*Conn).SetDatabase
+//@ assigns conn.id
+//@ ensures {C13} conn.id == id
+
+//@ func (*Conn).Database
+//@ assigns nothing
+//@ ensures {C13} result == conn.id
+
+//@ func (*Conn).SetAuthrized
+//@ assigns conn.authrized
+//@ ensures {C08} conn.authrized == authrized
+
+//@ func (*Conn).IsAuthrized
+//@ assigns nothing
+//@ ensures {C08} result == conn.authrized
+
+//@ func (*Conn).SetUserName
+//@ assigns conn.username
+//@ ensures conn.username == username
+
+//@ func (*Conn).UserName
+//@ assigns nothing
+//@ ensures result0 == conn.username && result1 == (0 < len(conn.username))
+
+//@ func (*Conn).SetPassword
+//@ assigns conn.password
+//@ ensures conn.password == password
+
+//@ func (*Conn).Password
+//@ assigns nothing
+//@ ensures result0 == conn.password && result1 == (0 < len(conn.password))
+
+//@ func (*Conn).SetSpanContext
+//@ assigns conn.Context
+//@ ensures conn.Context == span
+
+//@ func (*Conn).UUID
+//@ assigns nothing
+//@ ensures result == conn.uuid
+
+// ---------------------------------------------------------------- message.go / errors.go
+
+//@ func NewStringMessage
+//@ assigns nothing
+//@ ensures result != nil && fresh(result) && result.Type == proto.StringMessage && result.bytes != nil && string(result.bytes) == msg && result.array == nil
+
+//@ func NewBulkMessage
+//@ assigns nothing
+//@ ensures result != nil && fresh(result) && result.Type == proto.BulkMessage && result.bytes != nil && string(result.bytes) == msg && result.array == nil
+
+//@ func NewErrorMessage
+//@ requires err != nil
+//@ assigns nothing
+//@ ensures result != nil && fresh(result) && result.Type == proto.ErrorMessage && result.array == nil
+
+//@ func NewOKMessage
+//@ assigns nothing
+//@ ensures result != nil && fresh(result) && result.Type == proto.StringMessage && result.bytes != nil && string(result.bytes) == "OK" && result.array == nil
+
+//@ func NewNilMessage
+//@ assigns nothing
+//@ ensures result != nil && fresh(result) && result.Type == proto.BulkMessage && result.bytes == nil && result.array == nil
+
+//@ func NewIntegerMessage
+//@ assigns nothing
+//@ ensures result != nil && fresh(result) && result.Type == proto.IntegerMessage && result.bytes != nil && string(result.bytes) == itoa(val) && result.array == nil
+
+//@ func NewArrayMessage
+//@ assigns nothing
+//@ ensures result != nil && fresh(result) && result.Type == proto.ArrayMessage && result.array != nil && fresh(result.array) && len(result.array.msgs) == 0 && result.array.index == 0 && fresh(result.array.msgs)
+
+//@ func NewArrayMessageWithArray
+//@ assigns nothing
+//@ ensures result != nil && fresh(result) && result.Type == proto.ArrayMessage && result.array == val
+
+//@ func NewErrNotSupported
+//@ assigns nothing
+//@ ensures result != nil
+
+//@ func NewErrorNotSupportedMessage
+//@ assigns nothing
+//@ ensures result != nil && fresh(result) && result.Type == proto.ErrorMessage
+
+//@ func newMissingArgumentError
+//@ assigns nothing
+//@ ensures result != nil && (errors.Is(result, proto.ErrEOM) <==> errors.Is(err, proto.ErrEOM))
+
+//@ func newUnkownArgumentError
+//@ assigns nothing
+//@ ensures result != nil && !errors.Is(result, proto.ErrEOM)
+
+//@ func newInvalidArgumentError
+//@ requires err != nil
+//@ assigns nothing
+//@ ensures result != nil && !errors.Is(result, proto.ErrEOM)
+
+// ---------------------------------------------------------------- config
+
+//@ func (*Config).ConfigString
+//@ assigns nothing
+//@ ensures result1 == dom(cfg.params, key) && (result1 ==> result0 == cfg.params[key])
+
+//@ func (*Config).SetConfig
+//@ requires cfg.params != nil
+//@ assigns map(cfg.params)
+//@ ensures dom(cfg.params, key) && cfg.params[key] == params
+//@ ensures forall k string :: k != key ==> dom(cfg.params, k) == old(dom(cfg.params, k)) && cfg.params[k] == old(cfg.params[k])
+
+//@ func (*ServerConfig).ConfigRequirePass
+//@ requires cfg.Config != nil
+//@ assigns nothing
+//@ ensures result1 == dom(cfg.Config.params, "requirepass") && (result1 ==> result0 == cfg.Config.params["requirepass"])
+
+// ---------------------------------------------------------------- conn_manager.go
+
+//@ func (*ConnManager).AddConn
+//@ requires c != nil && mgr.m != nil && mgr.mutex != nil
+//@ assigns map(mgr.m)
+//@ ensures {C19} dom(mgr.m, c.uuid) && mgr.m[c.uuid] == c
+//@ ensures {C19} forall u uuid.UUID :: u != c.uuid ==> dom(mgr.m, u) == old(dom(mgr.m, u))
+
+//@ func (*ConnManager).RemoveConn
+//@ requires conn != nil && mgr.mutex != nil
+//@ assigns map(mgr.m)
+//@ ensures {C19} !dom(mgr.m, conn.uuid) && result == nil
+//@ ensures {C19} forall u uuid.UUID :: u != conn.uuid ==> dom(mgr.m, u) == old(dom(mgr.m, u))
+
+// ---------------------------------------------------------------- server.go
+
+//@ func (*Server).responseMessage
+//@ requires conn != nil
+//@ assigns replies
+//@ ensures {C03} replies == old(replies) + 1
+
+//@ func (*Server).handleMessage
+//@ requires srvOK(server) && conn != nil && msg != nil && conn.Context != nil && span_depth >= 0 && root_open == 1
+//@ requires {C08} server.userCommandHandler != nil ==> true
+//@ assigns proto.Array.index, conn.id, conn.authrized, conn.username, conn.password, map(server.ServerConfig.Config.params), H_*, span_depth, authed, alloc
+//@ ensures {C20} span_depth == old(span_depth)
+//@ ensures {C08} conn.authrized && !old(conn.authrized) ==> authed
+//@ ensures {C08} old(authed) ==> authed
+
+//@ func (*Server).handleArrayMessage
+//@ requires srvOK(server) && conn != nil && arrayMsg != nil && conn.Context != nil && span_depth >= 0 && root_open == 1
+//@ assigns proto.Array.index, conn.id, conn.authrized, conn.username, conn.password, map(server.ServerConfig.Config.params), H_*, span_depth, authed, alloc
+//@ ensures {C20} span_depth == old(span_depth)
+//@ ensures {C08} conn.authrized && !old(conn.authrized) ==> authed
+//@ ensures {C08} old(authed) ==> authed
+//@ ensures {C07,C04} arrayMsg != nil
+
+//@ func (*Server).receive
+//@ requires srvOK(server) && conn != nil
+//@ requires 0 <= S_pos && S_pos <= S_end && S_end <= 17592186044416
+//@ requires replies == 0 && requests == 0 && root_open == 0 && span_depth == 0 && !sock_closed && !authed
+//@ ensures {C03,C11} replies == requests
+//@ ensures {C19,C11} sock_closed
+//@ ensures {C19,C11} forall u uuid.UUID :: dom(server.ConnManager.m, u) ==> old(dom(server.ConnManager.m, u))
+//@ ensures {C20} root_open == 0
+//@ loop 0
+//@   invariant {C03} replies == requests
+//@   invariant {C20} root_open == 0 && span_depth >= 0
+//@   invariant {C19} !handlerConn.isClosed && !sock_closed && handlerConn != nil && handlerConn.Conn == conn && handlerConn.uuid == cur_uuid
+//@   invariant {C19} forall u uuid.UUID :: u != cur_uuid ==> dom(server.ConnManager.m, u) == old(dom(server.ConnManager.m, u))
+//@   invariant {C08} handlerConn.authrized ==> (!isPasswdRequired || authed)
+//@   invariant srvOK(server) && parser != nil && parser.reader != nil && 0 <= S_pos && S_pos <= S_end
+//@   diverges
+
+//@ func (*Server).receive$1
+//@ requires handlerConn != nil && handlerConn.Conn != nil
+//@ assigns handlerConn.isClosed, sock_closed
+//@ ensures {C19} sock_closed || handlerConn.isClosed
+//@ ensures {C19} old(sock_closed) ==> sock_closed
+//@ ensures {C19} handlerConn.isClosed ==> old(handlerConn.isClosed) || sock_closed
+
+//@ func (*Server).receive$2
+//@ requires handlerConn != nil && srvOK(server)
+//@ assigns map(server.ConnManager.m)
+//@ ensures {C19} !dom(server.ConnManager.m, handlerConn.uuid)
+//@ ensures {C19} forall u uuid.UUID :: u != handlerConn.uuid ==> dom(server.ConnManager.m, u) == old(dom(server.ConnManager.m, u))
+
+// ---------------------------------------------------------------- server_handler.go
+
+//@ functype redis.Executor(conn, cmd, args)
+//@ requires conn != nil && args != nil && conn.Context != nil && span_depth >= 1 && root_open == 1
+//@ requires srvOK(server) && server.userCommandHandler != nil
+//@ requires {C08} conn.authrized || isAuthCmd(cmd)
+//@ assigns proto.Array.index, conn.id, conn.authrized, conn.username, conn.password, map(server.ServerConfig.Config.params), H_*, span_depth, authed, alloc
+//@ ensures {C20} span_depth == old(span_depth)
+//@ ensures {C08} conn.authrized && !old(conn.authrized) ==> authed
+//@ ensures {C08} old(authed) ==> authed
+//@ ensures {C08} !isAuthCmd(cmd) ==> conn.authrized == old(conn.authrized)
+
+//@ func (*Server).executeCommand
+//@ requires srvOK(server) && conn != nil && args != nil && conn.Context != nil && span_depth >= 0 && root_open == 1
+//@ assigns proto.Array.index, conn.id, conn.authrized, conn.username, conn.password, map(server.ServerConfig.Config.params), H_*, span_depth, authed, alloc
+//@ ensures {C20} span_depth == old(span_depth)
+//@ ensures {C08} conn.authrized && !old(conn.authrized) ==> authed
+//@ ensures {C08} old(authed) ==> authed
+//@ ensures {C08} !isAuthCmd(cmd) ==> conn.authrized == old(conn.authrized)
+//@ ensures {C08} !old(conn.authrized) && !isAuthCmd(cmd) ==> H_calls == old(H_calls) && !conn.authrized && err == ErrNotAuthrized || server.userCommandHandler == nil || !dom(server.commandExecutors, toUpper(cmd))
+//@ ensures {C05} server.userCommandHandler == nil || !dom(server.commandExecutors, toUpper(cmd)) ==> H_calls == old(H_calls) && err == nil && result0 != nil && result0.Type == proto.ErrorMessage
+
+// ---------------------------------------------------------------- options.go
+
+//@ spec func isZeroTime(t time.Time) bool
+
+//@ func newDefaultSetOption
+//@ assigns nothing
+//@ ensures !result.NX && !result.XX && !result.KEEPTTL && !result.GET && result.EX == 0 && result.PX == 0 && isZeroTime(result.EXAT) && isZeroTime(result.PXAT)
+
+// ---------------------------------------------------------------- handler_func.go : typed access to the request's arguments
+// hasArg/strArg/intArg describe element k after the cursor of the request array; argS/argI are its decoded values.
+
+//@ spec func hasArg(a ref, k int) bool = 0 <= a.index + k && a.index + k < len(a.msgs) && a.msgs[a.index + k] != nil
+//@ spec func strArg(a ref, k int) bool = hasArg(a, k) && isStr(a.msgs[a.index + k].Type) && a.msgs[a.index + k].bytes != nil
+//@ spec func argS(a ref, k int) string = string(a.msgs[a.index + k].bytes)
+//@ spec func intArg(a ref, k int) bool = hasArg(a, k) && isNum(a.msgs[a.index + k].Type) && atoiOK(string(a.msgs[a.index + k].bytes))
+//@ spec func argI(a ref, k int) int = atoi(string(a.msgs[a.index + k].bytes))
+//@ spec func advanced(a ref, i0 int, n int) bool = a.index == i0 + n || (a.index == len(a.msgs) && a.index < i0 + n && i0 <= a.index) || (i0 >= len(a.msgs) && a.index == i0)
+
+//@ func nextStringArgument
+//@ requires args != nil
+//@ assigns args.index
+//@ ensures {C05,C10} err == nil <==> old(strArg(args, 0))
+//@ ensures {C05} err == nil ==> result0 == old(argS(args, 0)) && args.index == old(args.index) + 1
+//@ ensures {C10} err != nil ==> result0 == ""
+//@ ensures {C10} errors.Is(err, proto.ErrEOM) <==> !old(hasArg(args, 0))
+//@ ensures old(args.index) <= args.index && args.index <= old(args.index) + 1
+
+//@ func nextIntegerArgument
+//@ requires args != nil
+//@ assigns args.index
+//@ ensures {C05,C10} err == nil <==> old(intArg(args, 0))
+//@ ensures {C05} err == nil ==> result0 == old(argI(args, 0)) && args.index == old(args.index) + 1
+//@ ensures {C10} err != nil ==> result0 == 0
+//@ ensures {C10} errors.Is(err, proto.ErrEOM) <==> !old(hasArg(args, 0))
+//@ ensures old(args.index) <= args.index && args.index <= old(args.index) + 1
+
+//@ func nextKeyArgument
+//@ requires args != nil
+//@ assigns args.index
+//@ ensures {C05,C10} err == nil <==> old(strArg(args, 0))
+//@ ensures {C05} err == nil ==> result0 == old(argS(args, 0)) && args.index == old(args.index) + 1
+//@ ensures {C10} err != nil ==> result0 == ""
+//@ ensures {C10} errors.Is(err, proto.ErrEOM) <==> !old(hasArg(args, 0))
+//@ ensures old(args.index) <= args.index && args.index <= old(args.index) + 1
+
+//@ func nextHashArgument
+//@ requires args != nil
+//@ assigns args.index
+//@ ensures {C05,C10} err == nil <==> old(strArg(args, 0))
+//@ ensures {C05} err == nil ==> result0 == old(argS(args, 0)) && args.index == old(args.index) + 1
+//@ ensures {C10} err != nil ==> result0 == ""
+//@ ensures old(args.index) <= args.index && args.index <= old(args.index) + 1
+
+//@ func nextSetArguments
+//@ requires args != nil
+//@ assigns args.index
+//@ ensures {C05,C10} err == nil <==> (old(strArg(args, 0)) && old(strArg(args, 1)))
+//@ ensures {C05} err == nil ==> result0 == old(argS(args, 0)) && result1 == old(argS(args, 1)) && args.index == old(args.index) + 2
+//@ ensures old(args.index) <= args.index && args.index <= old(args.index) + 2
+
+//@ func nextFloatArgument
+//@ requires args != nil
+//@ assigns args.index
+//@ ensures {C10} err == nil ==> old(strArg(args, 0)) && args.index == old(args.index) + 1
+//@ ensures {C10} !old(strArg(args, 0)) ==> err != nil
+//@ ensures {C10} errors.Is(err, proto.ErrEOM) ==> !old(hasArg(args, 0))
+//@ ensures old(args.index) <= args.index && args.index <= old(args.index) + 1
+
+//@ func nextScoreArgument
+//@ requires args != nil
+//@ assigns args.index
+//@ ensures {C10} err == nil ==> old(strArg(args, 0)) && args.index == old(args.index) + 1
+//@ ensures {C10} !old(strArg(args, 0)) ==> err != nil
+//@ ensures {C10} errors.Is(err, proto.ErrEOM) ==> !old(hasArg(args, 0))
+//@ ensures old(args.index) <= args.index && args.index <= old(args.index) + 1
+
+//@ func nextRangeIndexArgument
+//@ requires args != nil
+//@ assigns args.index
+//@ ensures {C05,C10} err == nil <==> old(intArg(args, 0))
+//@ ensures {C05} err == nil ==> result0 == old(argI(args, 0)) && args.index == old(args.index) + 1
+//@ ensures old(args.index) <= args.index && args.index <= old(args.index) + 1
+
+//@ func nextRangeScoreIndexArgument
+//@ requires args != nil
+//@ assigns args.index
+//@ ensures {C10} err == nil ==> old(strArg(args, 0)) && len(old(argS(args, 0))) > 0 && args.index == old(args.index) + 1
+//@ ensures {C05} err == nil ==> result1 == (old(argS(args, 0))[0] == 40)
+//@ ensures old(args.index) <= args.index && args.index <= old(args.index) + 1
+
+//@ func nextKeysArguments
+//@ requires args != nil
+//@ assigns args.index
+//@ ensures {C05} err == nil ==> (forall k int :: 0 <= k && k < len(result0) ==> old(strArg(args, k)) && result0[k] == old(argS(args, k))) && !old(hasArg(args, len(result0)))
+//@ ensures {C10} err != nil ==> result0 == nil
+//@ ensures old(args.index) <= args.index
+
+//@ func nextMGetArguments
+//@ requires args != nil
+//@ assigns args.index
+//@ ensures {C05} err == nil ==> (forall k int :: 0 <= k && k < len(result0) ==> old(strArg(args, k)) && result0[k] == old(argS(args, k))) && !old(hasArg(args, len(result0)))
+//@ ensures {C10} err != nil ==> result0 == nil
+//@ ensures old(args.index) <= args.index
+
+//@ func nextStringArrayArguments
+//@ requires args != nil
+//@ assigns args.index
+//@ ensures {C05} err == nil ==> (forall k int :: 0 <= k && k < len(result0) ==> old(strArg(args, k)) && result0[k] == old(argS(args, k))) && !old(hasArg(args, len(result0)))
+//@ ensures {C10} err != nil ==> result0 == nil
+//@ ensures old(args.index) <= args.index
+//@ loop 0
+//@   invariant old(args.index) <= args.index && args.index <= len(args.msgs) && fresh(strs) && 0 <= len(strs)
+//@   invariant err == nil ==> args.index == old(args.index) + len(strs) + 1 && old(args.index) + len(strs) < len(args.msgs)
+//@   invariant err == nil ==> args.msgs[old(args.index) + len(strs)] != nil && isStr(args.msgs[old(args.index) + len(strs)].Type) && args.msgs[old(args.index) + len(strs)].bytes != nil && str == string(args.msgs[old(args.index) + len(strs)].bytes)
+//@   invariant err != nil ==> args.index <= old(args.index) + len(strs) + 1 && args.index >= old(args.index) + len(strs)
+//@   invariant err == proto.ErrEOM ==> (old(args.index) + len(strs) >= len(args.msgs) || args.msgs[old(args.index) + len(strs)] == nil)
+//@   invariant err != nil && err != proto.ErrEOM ==> !errors.Is(err, proto.ErrEOM)
+//@   invariant forall k int :: 0 <= k && k < len(strs) ==> old(strArg(args, k)) && strs[k] == old(argS(args, k))
+//@   decreases len(args.msgs) - args.index + (err == nil ? 1 : 0)
+
+//@ func nextStringMapArguments
+//@ requires args != nil
+//@ assigns args.index
+//@ ensures {C10} err == nil ==> result0 != nil && fresh(result0)
+//@ ensures {C10} err != nil ==> result0 == nil
+//@ ensures old(args.index) <= args.index
+//@ loop 0
+//@   invariant old(args.index) <= args.index && args.index <= len(args.msgs) && dir != nil && fresh(dir)
+//@   decreases len(args.msgs) - args.index + (err == nil ? 1 : 0)
+
+//@ func nextMSetArguments
+//@ requires args != nil
+//@ assigns args.index
+//@ ensures {C10} err == nil ==> result0 != nil && fresh(result0)
+//@ ensures {C10} err != nil ==> result0 == nil
+//@ ensures old(args.index) <= args.index
+
+//@ func nextSetExArguments
+//@ requires args != nil
+//@ assigns args.index
+//@ ensures {C05,C10} err == nil ==> old(strArg(args, 0)) && old(intArg(args, 1)) && old(strArg(args, 2)) && result0 == old(argS(args, 0)) && result1 == old(argI(args, 1)) && result2 == old(argS(args, 2))
+//@ ensures {C10} err == nil ==> 1 <= result1 && result1 <= 9223372036
+//@ ensures old(args.index) <= args.index && args.index <= old(args.index) + 3
+
+//@ func nextSetOptionArguments
+//@ requires args != nil
+//@ assigns args.index
+//@ ensures {C10} err == nil ==> !(result0.NX && result0.XX)
+//@ ensures {C10} err == nil ==> 0 <= result0.EX && 0 <= result0.PX
+//@ ensures old(args.index) <= args.index
+//@ loop 0
+//@   invariant old(args.index) <= args.index && args.index <= len(args.msgs)
+//@   invariant {C10} !(opt.NX && opt.XX) && 0 <= opt.EX && 0 <= opt.PX
+//@   decreases len(args.msgs) - args.index
+
+//@ func nextPushArguments
+//@ requires args != nil
+//@ assigns args.index
+//@ ensures {C05,C10} err == nil ==> old(strArg(args, 0)) && result0 == old(argS(args, 0))
+//@ ensures {C05} err == nil ==> (forall k int :: 0 <= k && k < len(result1) ==> old(strArg(args, k + 1)) && result1[k] == old(argS(args, k + 1))) && !old(hasArg(args, len(result1) + 1))
+//@ ensures old(args.index) <= args.index
+
+//@ func nextPopArguments
+//@ requires args != nil
+//@ assigns args.index
+//@ ensures {C05,C10} err == nil ==> old(strArg(args, 0)) && result0 == old(argS(args, 0))
+//@ ensures {C05} err == nil && old(intArg(args, 1)) ==> result1 == old(argI(args, 1))
+//@ ensures {C05} err == nil && !old(hasArg(args, 1)) ==> result1 == 1
+//@ ensures {C10} old(hasArg(args, 1)) && !old(intArg(args, 1)) ==> err != nil
+//@ ensures old(args.index) <= args.index && args.index <= old(args.index) + 2
+
+//@ func nextRangeOptionArguments
+//@ requires args != nil
+//@ assigns args.index
+//@ ensures old(args.index) <= args.index
+//@ loop 0
+//@   invariant old(args.index) <= args.index && args.index <= len(args.msgs)
+//@   decreases len(args.msgs) - args.index + (err == nil ? 1 : 0)
+
+//@ func nextExpireArgument
+//@ requires args != nil
+//@ assigns args.index
+//@ ensures {C05} err == nil ==> result0.Time == ttl
+//@ ensures old(args.index) <= args.index && args.index <= old(args.index) + 1
+
+//@ func nextScanArgument
+//@ requires args != nil
+//@ assigns args.index
+//@ ensures {C17} err == nil ==> result0.MatchPattern != nil && isGlob(result0.MatchPattern)
+//@ ensures old(args.index) <= args.index
+//@ loop 0
+//@   invariant old(args.index) <= args.index && args.index <= len(args.msgs)
+//@   invariant {C17} opt.MatchPattern != nil && isGlob(opt.MatchPattern)
+//@   decreases len(args.msgs) - args.index + (err == nil ? 1 : 0)
